@@ -172,7 +172,11 @@ class FixedArray(Array, Generic[ValuesType]):
 
     # Equality -------------------------------------------------------------------------------------
     def __eq__(self, other: Any) -> bool:
-        return Array.__eq__(self, other) and self.dimension == other.dimension
+        if not Array.__eq__(self, other):
+            return False
+        if isinstance(other, FixedArray):
+            return self.dimension == other.dimension
+        return True  # a plain Array with the same values, quantity and unit
 
     def __reduce__(self) -> Any:
         """
